@@ -16,4 +16,12 @@ CHECKS = {
         "Per-instance certificates decide optimality for each observed instance exactly; reach over 'all matrices' is by sampling.",
    note="Trusted base: numpy SVD/lstsq; NNLS optimum by enumeration (n<=8). Rank-deficient and kappa>1e10 instances skipped. Known finding F13 (scipy NNLS) is attributed only when clp is bit-equal to scipy's own answer in the stated regime.",
    technique="runtime monitoring: icontract postconditions on the real functions + per-instance optimality certificates (KKT / orthogonality) and independent optimum"),
+ "C12": dict(category="exploration",
+   text="Postconditions on Parameters.__init__/update_parameter_expression/set_from_label_and_value_arrays/set_from_history/copy compare every "
+        "expression parameter with an independent evaluation of its expression tree on the current values, after construction (6 constructors), after "
+        "optimiser-style updates, copy and history restore, and during real optimisations. All acyclic dependency graphs over <=4 expression parameters "
+        "are enumerated; all 720 declaration orders in the thorough tier (seeded sample in quick). The quantifier (graphs x orders) is finite and small, so "
+        "bounded-exhaustive execution is the right level; expression bodies and values are sampled.",
+   note="Trusted base: numpy elementary functions, Python float arithmetic. Cyclic graphs excluded.",
+   technique="runtime monitoring: postcondition monitors on the real Parameters methods + independent expression evaluator, exhaustive graph/order enumeration"),
 }
